@@ -227,10 +227,10 @@ func keyBytes(k x509.PublicKey) []byte {
 
 // keyStable: once non-zero, RemoteKey() of one Channel object never changes (C05).
 func (w *World) keyStable(s *Side, ch *p2pke.Channel, gen int) {
+	kb := keyBytes(ch.RemoteKey()) // a scheduling point: a restart may replace the channel meanwhile
 	if gen != s.Gen {
 		return
 	}
-	kb := keyBytes(ch.RemoteKey())
 	if kb == nil {
 		if s.firstKey != nil {
 			w.Res.Violate(w.step(), "remote-key-changed", "channel %s: RemoteKey() went back to zero", s.Name)
@@ -385,6 +385,9 @@ func FillStats(res *simcore.Result, w *World) {
 	}
 	if sim.Stats.HitTimeCap {
 		res.Probe("hit-time-cap")
+	}
+	if !w.Finished {
+		res.Probe("run-unfinished")
 	}
 	for k, v := range w.Net.Fired {
 		res.FaultN("net-"+k, v)
